@@ -11,7 +11,7 @@ import miros.hsm as hsm                       # noqa: E402
 from miros.event import signals, return_status, Event   # noqa: E402
 
 NSTATES = 20
-USER = ["A", "B", "C", "D", "E", "F", "G", "H", "T"]
+USER = ["A", "B", "C", "D", "E", "F", "G", "H", "T", "U_SIGNAL"]    # U_SIGNAL: a user signal named like the built-in ones
 for _n in USER:
     signals.append(_n)
 SIG = {n: signals[n] for n in USER}
